@@ -147,7 +147,8 @@ def run_check(prop_id: str, tier: str, dump_path: str | None = None) -> int:
     _DUMP = dump_path is not None
     shards = list(mod.shards(tier))
     # VERIF_SEED only rotates the order in which shards are handed out
-    random.Random(seed).shuffle(shards)
+    if not getattr(mod, "KEEP_SHARD_ORDER", False):
+        random.Random(seed).shuffle(shards)
     workers = int(os.environ.get("VERIF_WORKERS", "0") or 0) or min(16, os.cpu_count() or 1)
     workers = max(1, min(workers, len(shards)))
     results = []
